@@ -356,6 +356,37 @@ def run(ctx):
              'a document nested deeply enough to exhaust the interpreter '
              'stack inside the YAML parser ends in RecursionError (an '
              'internal error), not in a definition error', ctx.loc(py))
+    # the same holds for the other recursive-descent parser validation
+    # feeds with user text: Jinja (F29).  (The YAQL parser is table driven.)
+    n_rp = 0
+    for f in ev_validate:
+        for c in own_nodes(f.node):
+            if not (isinstance(c, ast.Call) and
+                    isinstance(c.func, ast.Attribute) and
+                    c.func.attr in ('parse', 'parse_expression') and
+                    f.module.endswith('jinja_expression')):
+                continue
+            n_rp += 1
+            fcfg = ctx.cfg(f)
+            conv = False
+            for tr in fcfg.enclosing_trys(fcfg.node_of(c)):
+                for h in tr.handlers:
+                    if any(z.split('.')[-1] in ('RecursionError',
+                                                'RuntimeError', 'Exception',
+                                                'BaseException')
+                           for z in U.handler_types(h)) and any(
+                            isinstance(x, ast.Raise) and x.exc is not None and
+                            'GrammarException' in norm(x.exc)
+                            for x in ast.walk(h)):
+                        conv = True
+            r3.check(conv, ctx.construct(f, c, extra='RecursionError '
+                                         'converted'),
+                     'the Jinja parser recurses on the nesting of the '
+                     'expression: without a handler for RecursionError a '
+                     'deeply nested expression ends validation in an '
+                     'internal error', ctx.loc(f, c))
+    if n_rp < 2:
+        raise AnalysisError('C14.R3: Jinja parser calls in validate() lost')
     gv = prog.func(PARSER + '._get_spec_version')
     ok = False
     for t in ast.walk(gv.node):
